@@ -37,6 +37,10 @@ CLAIMED = {
    text="Sequential puts on prefixes with 1..3 levels are compared with exact math/big arithmetic and checked for freshness against the state before each put; subscribers are opened at seeded moments and held by hooks in the windows of GetSequenceUpdates while puts complete, and at quiescence (all writes returned) the last value of each subscriber must be the latest generated key. Subscriber part runs under the race detector.",
    note="'Eventually observes' is restated as 'at quiescence'; the hold is placed on the subscriber side only (writer-side window between notification and commit is not widened).",
    technique="reference-model monitor (exact arithmetic) + hook-widened interleavings with a quiescence oracle + race detector"),
+ "C17": dict(engine="kvmodel", level="exploration",
+   text="Per committed request the reference model yields the expected notification batch; a subscriber reading through GetNotifications is cut and resumed with the last offset it saw at seeded points (one across a restart into a new term), with a hook widening the reader's check-then-wait window; order, exactly-one-batch-per-request, content, no internal keys, no loss/duplicate across resumptions are checked, and a stalled delivery is confirmed by logical evidence (it resumes only when one more request is committed). Trimming is exercised on a bare DB with a mocked clock: every batch inside retention must still be delivered.",
+   note="RF=1 (nothing uncommitted exists here; delivery of uncommitted requests and resume on a different node belong to the replication engines). Delivery of the last batch is judged at quiescence.",
+   technique="reference-model monitor over the notification stream + hook-widened interleaving + resumption oracle"),
 }
 
 NOT_APPLICABLE = {}
